@@ -154,21 +154,27 @@ Definition total_edges (g : graph) : nat := fold_left (fun n es => n + length es
 (** enough for the loop above: every round either expands a new state or drops a shortcut *)
 Definition self_fuel (g : graph) : nat := (nstates g + 1) * (total_edges g + 2) + 1.
 
+(** the loop [for _, tr := range s.Transitions { simplify(start, tr.Next, visited) }]; [rec] is the
+    recursive call *)
+Section Children.
+  Variable rec : graph -> nat -> list nat -> option (graph * list nat).
+  Fixpoint children (es : list edge) (g : graph) (visited : list nat) : option (graph * list nat) :=
+    match es with
+    | [] => Some (g, visited)
+    | (_, t) :: es' =>
+      match rec g t visited with
+      | Some (g', v') => children es' g' v'
+      | None => None
+      end
+    end.
+End Children.
+
 Fixpoint simplify (fuel : nat) (g : graph) (s : nat) (visited : list nat) : option (graph * list nat) :=
   match fuel with
   | 0 => None
   | S f =>
     if mem_nat s visited then Some (g, visited) else
-    let fix children (es : list edge) (g : graph) (visited : list nat) : option (graph * list nat) :=
-        match es with
-        | [] => Some (g, visited)
-        | (_, t) :: es' =>
-          match simplify f g t visited with
-          | Some (g', v') => children es' g' v'
-          | None => None
-          end
-        end in
-    match children (edges g s) g (s :: visited) with
+    match children (simplify f) (edges g s) g (s :: visited) with
     | Some (g', v') =>
       match simplify_self (self_fuel g') g' s [] with
       | Some g'' => Some (g'', v')
